@@ -178,7 +178,9 @@ def statusOf (σ : State) (m : ModId) : Status := decodeStatus ((σ.status >>> (
 def setStatus (σ : State) (m : ModId) (s : Status) : State :=
   { σ with status := σ.status ^^^ ((((σ.status >>> (2 * m)) &&& 3) ^^^ encodeStatus s) <<< (2 * m)) }
 
-/-- evaluate the state (`force σ k = k σ`) -/
+/-- evaluate the state (`force σ k = k σ`): used where a state is kept for later (the set of seen
+states), so that the kernel stores a number and not a pending computation; inside the
+interpreter every step reads the state, which evaluates it anyway -/
 def force {α : Sort _} (σ : State) (k : State → α) : α :=
   forceNat σ.status (fun a => forceNat σ.slots (fun b => k ⟨a, b⟩))
 
@@ -311,7 +313,7 @@ def execFroms (F : Facts) (imp : ModId → State → Except Err State) (sc : Sco
   | n :: r, loc, σ =>
     match execFrom F imp sc m n n loc σ with
     | .error e => .error e
-    | .ok (σ', loc') => σ'.force (fun s => execFroms F imp sc m r loc' s)
+    | .ok (σ', loc') => execFroms F imp sc m r loc' σ'
 
 /-- execute a list of events; `imp` is the import machinery (`ensure`), `saved` the snapshots
 taken by `enter` -/
@@ -322,14 +324,14 @@ def execEvs (F : Facts) (imp : ModId → State → Except Err State) (sc : Scope
     match ev with
     | .bind n =>
       match bindIn F sc loc σ n .obj with
-      | (σ', loc') => σ'.force (fun s => execEvs F imp sc rest saved loc' s)
+      | (σ', loc') => execEvs F imp sc rest saved loc' σ'
     | .bindMod n m =>
       -- an import statement binds its module after the import: the module is in `sys.modules`
       match σ.statusOf m with
       | .absent => .error .malformed
       | _ =>
         match bindIn F sc loc σ n (.mod m) with
-        | (σ', loc') => σ'.force (fun s => execEvs F imp sc rest saved loc' s)
+        | (σ', loc') => execEvs F imp sc rest saved loc' σ'
     | .unbind n =>
       if sc.fn.isSome then
         match lookup n loc with
@@ -337,7 +339,7 @@ def execEvs (F : Facts) (imp : ModId → State → Except Err State) (sc : Scope
         | none => .error (.nameError sc.mod sc.fn n)
       else
         match σ.get F sc.mod n with
-        | some _ => (σ.set F sc.mod n none).force (fun s => execEvs F imp sc rest saved loc s)
+        | some _ => execEvs F imp sc rest saved loc (σ.set F sc.mod n none)
         | none => .error (.nameError sc.mod sc.fn n)
     | .load n =>
       match lookupScope F σ sc loc n with
@@ -353,15 +355,15 @@ def execEvs (F : Facts) (imp : ModId → State → Except Err State) (sc : Scope
     | .ensure m =>
       match imp m σ with
       | .error e => .error e
-      | .ok σ' => σ'.force (fun s => execEvs F imp sc rest saved loc s)
+      | .ok σ' => execEvs F imp sc rest saved loc σ'
     | .fromName m n asn =>
       match execFrom F imp sc m n asn loc σ with
       | .error e => .error e
-      | .ok (σ', loc') => σ'.force (fun s => execEvs F imp sc rest saved loc' s)
+      | .ok (σ', loc') => execEvs F imp sc rest saved loc' σ'
     | .star m =>
       match execFroms F imp sc m (starNames F σ m) loc σ with
       | .error e => .error e
-      | .ok (σ', loc') => σ'.force (fun s => execEvs F imp sc rest saved loc' s)
+      | .ok (σ', loc') => execEvs F imp sc rest saved loc' σ'
     | .noModule n => .error (.noModule sc.mod sc.fn n)
     | .enter => execEvs F imp sc rest ((σ, loc) :: saved) loc σ
     | .leave =>
@@ -500,42 +502,58 @@ def diagnoseEntry (F : Facts) (e : ModId) : List Finding :=
 
 def diagnose (F : Facts) : List Finding := F.entries.flatMap (diagnoseEntry F)
 
-/-! ## Static import closure (a second, order-free description of what `import X` loads) -/
+/-! ## Static import closure (a second, order-free description of what `import X` loads)
 
-/-- modules named by the `ensure` events of a list of events -/
-def importTargets (evs : List Ev) : List ModId :=
-  evs.filterMap (fun e => match e with | .ensure m => some m | _ => none)
+A set of modules is a bit set (`Nat`).  The closure of an entry is the least set that contains
+it and, with every module, the modules its module-level code can make the import machinery
+load: fixpoint iteration with fuel = number of modules. -/
 
-def insertNew (xs : List ModId) (m : ModId) : List ModId := if xs.any (Nat.beq m) then xs else xs ++ [m]
+def childrenFrom (p : ModId) : List Module → Nat → List ModId
+  | [], _ => []
+  | M :: r, i =>
+    match M.parent with
+    | some q => if Nat.beq q p then i :: childrenFrom p r (i + 1) else childrenFrom p r (i + 1)
+    | none => childrenFrom p r (i + 1)
 
-/-- the names a list of events may bind (module level) -/
-def boundNames (evs : List Ev) : List Name :=
-  evs.filterMap (fun e => match e with
-    | .bind n => some n | .bindMod n _ => some n | .fromName _ _ a => some a | _ => none)
+/-- the submodules of package `p` -/
+def Facts.childrenOf (F : Facts) (p : ModId) : List ModId := childrenFrom p F.mods 0
 
-/-- submodules a module-level `from m import n` falls back to: `m.n` exists and `n` is not a
-name that `m`'s own code binds -/
-def fromTargets (F : Facts) (evs : List Ev) : List ModId :=
-  evs.filterMap (fun e => match e with
-    | .fromName m n _ =>
-      match F.childOf m n, F.modOf m with
-      | some c, some M => if (boundNames M.evs).any (Nat.beq n) then none else some c
-      | _, _ => none
-    | _ => none)
+/-- the modules an event can make the import machinery load: the target of an `ensure`, the
+submodule a `from m import n` may fall back to, any submodule of `m` for `from m import *` -/
+def evTargets (F : Facts) : Ev → List ModId
+  | .ensure m => [m]
+  | .fromName m n _ => match F.childOf m n with | some c => [c] | none => []
+  | .star m => F.childrenOf m
+  | _ => []
 
-/-- one round: add the import targets of every module already in the set -/
-def closureRound (F : Facts) (xs : List ModId) : List ModId :=
-  xs.foldl (fun acc m =>
-    match F.modOf m with
-    | some M => (importTargets M.evs ++ fromTargets F M.evs).foldl insertNew acc
-    | none => acc) xs
+def memSet (S : Nat) (m : ModId) : Bool := Nat.testBit S m
+def addSet (S : Nat) (m : ModId) : Nat := S ||| (1 <<< m)
 
-def closureIter (F : Facts) : Nat → List ModId → List ModId
-  | 0, xs => xs
-  | k + 1, xs => let ys := closureRound F xs; if ys.length == xs.length then xs else closureIter F k ys
+def addTargets (F : Facts) (S : Nat) (evs : List Ev) : Nat :=
+  evs.foldl (fun acc e => (evTargets F e).foldl addSet acc) S
+
+/-- one round: add the targets of the module-level code of every member -/
+def closureRound (F : Facts) (S : Nat) : Nat :=
+  (zipIdx F.mods 0).foldl (fun acc (iM : Nat × Module) => if memSet S iM.1 then addTargets F acc iM.2.evs else acc) S
+
+def closureIter (F : Facts) : Nat → Nat → Nat
+  | 0, S => S
+  | k + 1, S => let S' := closureRound F S; if Nat.beq S' S then S else closureIter F k S'
 
 /-- fixpoint with fuel = number of modules -/
-def importClosure (F : Facts) (m : ModId) : List ModId := closureIter F F.mods.length [m]
+def importClosure (F : Facts) (m : ModId) : Nat := closureIter F F.mods.length (addSet 0 m)
+
+/-- `S` is closed: the import targets of the module-level code of every member are members -/
+def closedSetB (F : Facts) (S : Nat) : Bool :=
+  (zipIdx F.mods 0).all (fun (iM : Nat × Module) =>
+    !memSet S iM.1 || iM.2.evs.all (fun e => (evTargets F e).all (memSet S)))
+
+/-- the closure of every entry point is closed and contains the entry (checked by the kernel
+for the current tree: the fuel sufficed) -/
+def closuresOk (F : Facts) : Bool :=
+  F.entries.all (fun e => forceNat (importClosure F e) (fun S => memSet S e && closedSetB F S))
+
+def setToList (F : Facts) (S : Nat) : List ModId := (List.range F.mods.length).filter (memSet S)
 
 /-- the modules in `sys.modules` in state `σ` -/
 def loadedMods (F : Facts) (σ : State) : List ModId :=
